@@ -6,7 +6,7 @@ lazy read-only value, which is sound for the functions under contract because no
 import ast, fractions
 import z3
 from .core import (Ref, Obj, Row, Mat, Opaque, TupleV, Fork, ExcV, OutOfSubset, ContractError, fresh, to_z3, truth, num2, is_z3, alloc,
-                   INT, REAL, BOOL, A1I, A1R, A1B, A2R, A2I, arr_sort, store2, isperm, ixperm, allclose_sym)
+                   INT, REAL, BOOL, A1I, A1R, A1B, A2R, A2I, arr_sort, store2, isperm, ixperm, allclose_sym, SList, int_valued)
 from . import core
 
 
@@ -200,6 +200,10 @@ def _idx_kind(eng, st, sl):
         raise OutOfSubset('2-D integer index array')
     if isinstance(v, Opaque) and v.kind == 'trilidx':
         return ('trilidx', v)
+    if isinstance(v, TupleV) and len(v) == 1 and isinstance(v[0], Ref) and st.heap[v[0].oid].meta.get('where_cond1') is not None:
+        # x[np.where(mask)]: the positions where the 1-D mask holds
+        mt = st.heap[v[0].oid].meta
+        return ('mask', Row(mt['where_n'], mt['where_cond1'], BOOL))
     if isinstance(v, TupleV) and len(v) == 2 and all(isinstance(t, Ref) for t in v):
         return ('pair', as_row(eng, st, v[0]), as_row(eng, st, v[1]), v)
     if isinstance(v, TupleV) and len(v) == 2 and all(isinstance(t, (Ref, Row)) for t in v):
@@ -916,10 +920,38 @@ def np_array(eng, st, args, kw, node):
         r = elementwise(eng, st, lambda b: z3.If(truth(b), z3.RealVal(1), z3.RealVal(0)), v)
         r.esort = REAL
         return materialise(eng, st, r)
+    def dtname():
+        if dt is None:
+            return None
+        if isinstance(dt, Opaque) and dt.kind == 'builtin' and dt.name in ('int', 'float', 'bool'):
+            return dt.name
+        raise OutOfSubset('np.array dtype %r' % (dt,))
+
+    def conv(x):
+        """copy of array value x converted to the requested dtype (int: truncation toward zero, as numpy does)"""
+        x = materialise(eng, st, x) if not isinstance(x, Ref) else x
+        o = st.heap[x.oid]
+        want = dtname()
+        if want is None or (want == 'float' and o.esort == REAL) or (want == 'int' and o.esort == INT) or (want == 'bool' and o.esort == BOOL):
+            return alloc(st, o.ndim, o.term, o.shape, o.esort)
+        if want == 'float' and o.esort == INT:
+            return materialise(eng, st, elementwise(eng, st, lambda q: to_z3(q, REAL), x))
+        if want == 'int' and o.esort == REAL:
+            def trunc(q):
+                e = to_z3(q, REAL)
+                t = int_valued(e)
+                return t if t is not None else z3.If(e >= 0, z3.ToInt(e), -z3.ToInt(-e))
+            r = elementwise(eng, st, trunc, x)
+            r.esort = INT
+            return materialise(eng, st, r)
+        raise OutOfSubset('np.array conversion %s -> %s' % (o.esort, want))
+    if isinstance(v, SList):
+        # np.array(list of equal-length 1-D arrays): row k of the result is element k; kept as a list of rows (read by `a[k]` only)
+        if not all(isinstance(e, Ref) and st.heap[e.oid].ndim == 1 for _, e in v.slots):
+            raise OutOfSubset('np.array of a list that is not a list of 1-D arrays')
+        return SList(v.length, [(k, conv(e)) for k, e in v.slots])
     if isinstance(v, (Ref, Row, Mat)):
-        v = materialise(eng, st, v) if not isinstance(v, Ref) else v
-        o = st.heap[v.oid]
-        return alloc(st, o.ndim, o.term, o.shape, o.esort)
+        return conv(v)
     raise OutOfSubset('np.array of %r' % (v,))
 
 
